@@ -114,6 +114,14 @@ theorem only_list_admits (u : UseA) (r l : Str) (ho : u.only = true)
     (hn : (u.items.map UItem.remote).Nodup) : AdmitsCode u r l ↔ Admits u r l :=
   ⟨admits_of_code u r l (by simp [ho]), code_of_admits u r l (by simp [ho]) (fun _ => hn)⟩
 
+/-- After `fixes/C06-rename-without-only.diff` (model variant `renAll = true`, selected at run
+    time when the working tree honours the witness) a rename list without ONLY is read exactly
+    as the standard says, for every rename list without a repeated remote name. -/
+theorem bare_rename_admits_repaired (u : UseA) (r l : Str) (ho : u.only = false) (hf : u.renAll = true)
+    (hn : (u.items.map UItem.remote).Nodup) (hall : ∀ it ∈ u.items, ∃ a b, it = UItem.ren a b) :
+    AdmitsCode u r l ↔ Admits u r l :=
+  code_iff_admits_repaired u r l ho hf hn hall
+
 /-! ### Witnesses of the four defect classes (the replay inputs of known_findings/C06.json) -/
 
 private def wM0 : Scope :=
@@ -135,6 +143,13 @@ theorem rename_without_only_witness :
   refine Sees.imp (Imports.mk (n := wM0) (u := mkUse "m0".toList ", w => v".toList) (r := ['v'])
     (by simp) (by simp [wProg]) (by simp) rfl (by decide) ?_ (Or.inl (by decide)))
   exact Exports.decl (d := { name := ['v'], kind := 3, acc := none }) (by simp) rfl (by simp [wM0]) rfl (by decide)
+
+/-- the same input under the repaired variant: `w` is there, `v` is not -/
+theorem rename_without_only_repaired_witness :
+    let g := [wM0, wProg (mkUse "m0".toList ", w => v".toList true)]
+    aget (getTabs (run 3 g wOrder) ['p']).all ['w'] = some ("m0".toList, ['v']) ∧
+    aget (getTabs (run 3 g wOrder) ['p']).all ['v'] = none := by
+  decide
 
 /-- `use m0, only:` — ONLY_RE does not match an empty only-list, the statement is read as a
     USE without ONLY whose "rename list" is junk, and everything is imported. -/
